@@ -553,12 +553,15 @@ Definition st_add (s : state) (given : string) (x : json) (now : Z) (fresh : str
           | OutOfFuel => (s, OutOfFuel)
           end
       | Linear =>
-          let '(s1, failed) := store_call s in
-          if failed then (s1, Err "storage") else
-          let s2 := set_store s1 (ainsert id fact (st_store s1)) in
+          (* the hook is asked first (fix: commit in /repo): on its error nothing was
+             written, the storage was not even called, and the state is as it was *)
           match add_hook_err s fact with
-          | Some e => (s2, Err e)
-          | None => (set_facts s2 (ainsert id fact (st_facts s2)), Ok id)
+          | Some e => (s, Err e)
+          | None =>
+              let '(s1, failed) := store_call s in
+              if failed then (s1, Err "storage") else
+              let s2 := set_store s1 (ainsert id fact (st_store s1)) in
+              (set_facts s2 (ainsert id fact (st_facts s2)), Ok id)
           end
       end
   end.
